@@ -23,7 +23,7 @@ GEN = ['Units', 'InterpGrid', 'SpectrumOps']
 OPS = ['C13']
 RULE = ('pairs of dyadic spectra (2..8 samples each; identical / nested / overlapping / touching / disjoint ranges; uniform and '
         'non-uniform grids), operators add/subtract/multiply/divide, sampling min/left/right/float, fill 0/1.5/2, all 16 wavelength-unit '
-        'pairs, unitless and density values; scalar (int/float, incl. power and reflected multiply) and vector operands; reflected forms of all five operators with ndarray / int64 ndarray / list / np.float64 / float / int / 0-d array on the left (result must be one element-wise Spectrum or a TypeError, left*s = s*left); (equal length, '
+        'pairs, unitless and density values; scalar (int/float and NumPy scalars np.int64/int32/float32/bool_/float64/uint8 on the right, incl. power and reflected multiply) and vector operands; reflected forms of all five operators with ndarray / int64 ndarray / list / np.float64 / float / int / 0-d array on the left (result must be one element-wise Spectrum or a TypeError, left*s = s*left); (equal length, '
         'length 1, wrong length). distinct = (kind, op, sampling, units, sizes, first data); non-trivial = ranges differ or units differ')
 TRUSTED = ['scipy.interpolate.interp1d(kind="linear") is the piecewise-linear interpolant; np.linspace(a,b,n)[i] = a + i(b-a)/(n-1); np.clip',
            'NumPy ufuncs add/subtract/multiply/true_divide/power act element-wise']
@@ -32,7 +32,7 @@ UNPROVEN = ['commutativity and unit invariance ACROSS units at the level the dri
             'operands unchanged / result is a new object: snapshots in the correspondence (no heap model)',
             'quadratic/cubic interpolation methods (spline kernels are not modelled); power between two spectra (irrational values)',
             ]
-ASSUMPTIONS = ['NumPy scalar operands on the right (np.int64, np.int32, np.float32, np.bool_, np.uint8 — not np.float64, a float subclass) are refused with TypeError by _ufunc\'s isinstance dispatch although they are scalars: generated, counted (tag scalar:numpy-type-refused:…), reported as a defect candidate; sampling <= 0 and one-sample operands are not generated (the model totalises them)',
+ASSUMPTIONS = ['sampling <= 0 and one-sample operands are not generated (the model totalises them)',
                'unit invariance is claimed — and checked by the oracle in all 4 units — for unitless spectra with any fill value and for density spectra with fill 0 (add/subtract/multiply): a numeric fill value is a number in the left operand\'s value unit per ITS wavelength unit, so for densities a fixed non-zero fill is not unit-invariant by construction (e.g. 3.5 in nm vs 2.0015 for the same operands in um); divide needs a non-zero fill and is therefore checked for unitless spectra only',
                'operands with different value units (photlam + flam): the code combines the raw numbers and labels the result with the left operand\'s unit (so a+b and b+a carry different labels); generated (tag value-units:mixed), model and oracle follow the code; reported as an observation',
                'quadratic/cubic interpolation (tag method:…): oracle only — the method-independent laws (grid, commutativity, unit invariance, operands unchanged) and the values against an independent scipy interp1d of the same kind on the clipped grid; Blackbody operands and grids of more than 6000 points are oracle-only too',
@@ -317,12 +317,11 @@ def _single(c, R, s1):
             cc = int(c['c']) if c['as_int'] else c['c']
             if c.get('np_scalar'):
                 cc = getattr(np, c['np_scalar'])(1 if c['np_scalar'] == 'bool_' else c['c'])
+                NOTES[id(c)] = ['scalar:numpy-type:' + c['np_scalar']]
                 try:
                     r = _call(s1, c['fn'], cc)
-                except TypeError:
-                    NOTES[id(c)] = ['scalar:numpy-type-refused:' + c['np_scalar']]
-                    return {'exc': 'TypeError', 'unchanged': _snap(s1) == b1, 'np_refused': True}
-                NOTES[id(c)] = ['scalar:numpy-type-accepted:' + c['np_scalar']]
+                except TypeError as e:
+                    return {'exc': 'TypeError', 'msg': str(e)[:80], 'unchanged': _snap(s1) == b1}
                 return {'res': _out(r), 'new': r is not s1, 'unchanged': _snap(s1) == b1}
             r = _call(s1, c['fn'], cc, form='operator' if c['fn'] != 'rmul' and int(c['c'] * 8) % 2 == 0 else 'method')
             if np.shares_memory(r.wave, s1.wave): NOTES[id(c)] = ['result-grid-aliases-operand']
@@ -351,7 +350,6 @@ def requests(c, io):
     s1 = {'wave': qs(c['w1']), 'value': qs(c['v1'])}
     fn = 'multiply' if c['fn'] == 'rmul' else c['fn']
     if k == 'scalar':
-        if io.get('np_refused'): return []
         return [{'op': 'c13.scalar', 'fn': fn, 's1': s1, 'c': q(1.0 if c.get('np_scalar') == 'bool_' else c['c'])}]
     return [{'op': 'c13.vector', 'fn': fn, 's1': s1, 'v': qs(c['v'])}]
 
@@ -431,12 +429,9 @@ def oracle(c, io):
         return ('grid does not span the union at the requested sampling: the operation on %d and %d samples tried to build an absurd grid (%s)'
                 % (len(c['w1']), len(c.get('w2', [])), io['guard']))
     if k != 'pair':
-        if io.get('np_refused'):
-            # NumPy scalar types other than float64 are refused by _ufunc's isinstance dispatch (defect candidate, ASSUMPTIONS)
-            return None if io['unchanged'] else 'refused operation changed the operand'
         if 'exc' in io:
             if k == 'vector' and len(c['v']) not in (len(c['w1']), 1): return None if io['unchanged'] else 'refused operation changed the operand'
-            return f"{c['fn']} with a {k} raised {io['exc']}"
+            return f"{c['fn']} with a {k}" + (f" (np.{c['np_scalar']}({c['c']}) on the right)" if c.get('np_scalar') else '') + f" raised {io['exc']}: {io.get('msg', '')}"
         r = io['res']
         if r['wave'] != c['w1']: return 'scalar/vector operand changed the wavelength grid'
         other = (1.0 if c.get('np_scalar') == 'bool_' else c['c']) if k == 'scalar' else np.array(c['v'])
